@@ -320,11 +320,12 @@ func (c *MultiConn) sendHeartbeat() {
 		return
 	}
 	sendStart := time.Now()
-	if ok := stream.queueSend(&Packet{
+	// queue under the stream lock: Stop() closes the send queue under the same lock
+	if ok := stream.queueSends([]*Packet{{
 		StreamId: heartbeatTopic,
 		Eof:      true,
 		Bytes:    []byte(heartbeatPing),
-	}, sendStart, c.p2p.metrics); ok {
+	}}, sendStart, c.p2p.metrics); ok {
 		c.lastPingSent.Store(sendStart.UnixNano())
 		if c.p2p.metrics != nil {
 			c.p2p.metrics.HeartbeatPingSent.Inc()
@@ -345,11 +346,11 @@ func (c *MultiConn) handleHeartbeatPacket(packet *Packet) {
 			return
 		}
 		sendStart := time.Now()
-		if ok := stream.queueSend(&Packet{
+		if ok := stream.queueSends([]*Packet{{
 			StreamId: heartbeatTopic,
 			Eof:      true,
 			Bytes:    []byte(heartbeatPong),
-		}, sendStart, c.p2p.metrics); ok {
+		}}, sendStart, c.p2p.metrics); ok {
 			c.lastPongSent.Store(sendStart.UnixNano())
 			if c.p2p.metrics != nil {
 				c.p2p.metrics.HeartbeatPongSent.Inc()
